@@ -139,6 +139,7 @@ class Report:
         self.kfs = load_known_findings()
         self.required = {}         # coverage counters that must be > 0
         self.replay_dir = os.path.join(VERIF, 'replays', prop)
+        self.distinct_measured = None   # set when the harness itself counts distinct non-trivial cases (e.g. distinct states)
 
     def count(self, key, n=1):
         self.cover[key] = self.cover.get(key, 0) + n
@@ -192,7 +193,7 @@ class Report:
         wall = time.time() - self.t0
         cov = {
             'evaluations': self.evaluations,
-            'distinct_nontrivial': len(self.nontrivial),
+            'distinct_nontrivial': self.distinct_measured if self.distinct_measured is not None else len(self.nontrivial),
             'rule': self.rule,
             'samples': self.samples[:5] if self.samples else ['(none)'],
             'exhaustive': bool(exhaustive),
@@ -212,12 +213,12 @@ class Report:
         for l in vlines:
             print(l)
         print(f'[{self.prop}] tier={self.tier} seed={self.seed} evaluations={self.evaluations} '
-              f'distinct_nontrivial={len(self.nontrivial)} violations={len(self.violations)} '
+              f'distinct_nontrivial={self.distinct_measured if self.distinct_measured is not None else len(self.nontrivial)} violations={len(self.violations)} '
               f'known={sum(self.known.values())} inconclusive={len(self.inconclusive)} wall={wall:.1f}s')
         sys.stdout.flush()
         if self.violations:
             return 1
-        if missing or self.evaluations == 0 or len(self.nontrivial) < 2:
+        if missing or self.evaluations == 0 or (self.distinct_measured if self.distinct_measured is not None else len(self.nontrivial)) < 2:
             print(f'INCONCLUSIVE property={self.prop} missing_coverage={missing} evaluations={self.evaluations}')
             return 2
         if self.inconclusive and len(self.inconclusive) > max(3, self.evaluations // 10):
